@@ -19,8 +19,13 @@ CONTEXTS = {
 }
 
 
+# one operator per precedence level plus the predicates that carry their own AND / list: long expressions over few symbols
+CORE_ALPHA = ['ID', 'PLUS', 'STAR', 'MINUS', 'EQUALS', 'LESS', 'AND', 'OR', 'NOT', 'BETWEEN', 'LIKE', 'IS', 'NULL']
+
+
 def worker(args):
-    dialect, ctx, K, firsts = args
+    dialect, ctx, K, firsts = args[:4]
+    alpha_override = args[4] if len(args) > 4 else None
     sys.setrecursionlimit(10000)
     from engines.symtok import Explorer, SymToken, representatives
     from engines import sweep as SW
@@ -30,7 +35,7 @@ def worker(args):
     rep, _ = representatives(L)
     terms = set(P._grammar.Terminals)
     prefix, suffix, extract = CONTEXTS[ctx]
-    alpha = [t for t in EXPR_ALPHA if t in terms]
+    alpha = [t for t in (alpha_override or EXPR_ALPHA) if t in terms]
     fixed = [t for t in set(prefix + suffix) if t not in alpha]
     if any(t not in terms for t in prefix + suffix):
         return {'paths': 0, 'skipped_context': True}
@@ -92,15 +97,15 @@ def worker(args):
     return out
 
 
-def sweep(dialect, ctx, K, jobs=None):
+def sweep(dialect, ctx, K, jobs=None, alpha=None):
     from engines import sweep as SW
     L, P = SW.dialect_classes(dialect)
     terms = set(P._grammar.Terminals)
-    alpha = [t for t in EXPR_ALPHA if t in terms]
+    alpha_ = [t for t in (alpha or EXPR_ALPHA) if t in terms]
     jobs = jobs or os.cpu_count()
-    shards = [[a] for a in alpha]
+    shards = [[a] for a in alpha_]
     with mp.get_context('fork').Pool(min(jobs, len(shards))) as pool:
-        res = pool.map(worker, [(dialect, ctx, K, s) for s in shards])
+        res = pool.map(worker, [(dialect, ctx, K, s, alpha) for s in shards])
     tot = collections.Counter()
     findings, samples = [], []
     for r in res:
